@@ -14,7 +14,7 @@
    configuration can make a step that the machine reports as an error, and (typed_progress) the head event of every
    started thread can be executed: its thread-local precondition holds. *)
 From Coq Require Import Lia Arith List Bool NArith.
-From LSConc Require Import Clock Mach Inv Top StepSpec Values.
+From LSConc Require Import Clock Mach Inv Top StepSpec Values Contents.
 From LS Require Import Base Cmd Impl Proto.
 Import ListNotations.
 Local Open Scope nat_scope.
@@ -778,6 +778,27 @@ Proof.
   intros H0 Hs Ht Hst He. pose proof (typed_steps cf0 cf H0 Hs) as HW.
   destruct (wt_started cf HW t Ht Hst) as (Hag & _).
   eapply estep_value_ge_own; [exact (wt_inv cf HW)|exact Hag|exact He].
+Qed.
+
+(* ---------- contents ----------
+   A typed thread that writes, moves, re-initialises or reallocates the shared buffer does so alone: in every reachable
+   configuration where such an event of thread t can happen, no other thread holds a reference, reads through a loan or
+   has the duty to free — so (conc/Contents.v) the bytes any thread reads back are those its own writes put there. *)
+Definition writes_b0 (c : cmd unit) : Prop :=
+  match c with
+  | Write (PHeap b) _ _ _ | Move (PHeap b) _ _ _ _ | Realloc b _ _ _ | HdrInit b _ _ => b = b0
+  | _ => False
+  end.
+Lemma estep_write_is_machine_write t s c g s' c' g' :
+  estep t s c g s' c' g' -> writes_b0 c -> step s t AWrite = Ok s'.
+Proof. intros H W. destruct H; cbn [writes_b0] in W; try contradiction; try congruence; assumption. Qed.
+Theorem typed_write_is_sole cf0 cf t s' c' g' :
+  WT cf0 -> csteps cf0 cf ->
+  estep t (ms cf) (cur (gettc cf t)) (gh (gettc cf t)) s' c' g' -> writes_b0 (cur (gettc cf t)) ->
+  forall u, u <> t -> ~ Contents.holds (ms cf) u.
+Proof.
+  intros H0 Hs He Hw u Hne. pose proof (typed_steps cf0 cf H0 Hs) as HW.
+  exact (write_excludes_all (ms cf) t s' (wt_inv cf HW) (estep_write_is_machine_write _ _ _ _ _ _ _ He Hw) u Hne).
 Qed.
 
 End Compose.
